@@ -2,6 +2,7 @@ SPECIFICATION Spec
 INVARIANT CanonicalOrKnown
 INVARIANT HeapOrKnown
 INVARIANT BufferInv
+CONSTRAINT Untainted
 CONSTANTS
   WB = 2
   NR = 2
